@@ -192,6 +192,8 @@ contract("usim._primitives.task.Task.__init__.payload_wrapper",
              # every completion path: reported to the parent exactly once, done, outcome stored, no live cancellation left
              "self.reported and self._done._value and self._result is not None",
              "forall(self._cancellations, lambda c: c._revoked)",
+             # C01: the payload starts exactly at the requested date (scope.do(..., at=t / after=d)), else in the step it was spawned
+             "implies(user_code_ran(), user_start_time() == ite(at is not None, at, ite(delay is not None, old(loop.time) + delay, old(loop.time))))",
              # a task cancelled/closed before its first activation runs no payload code at all (C06, C04)
              "implies(old(self._result) is not None, not user_code_ran() and self._result == old(self._result))"],
          on_signal=["False"], on_close=["False"],     # nothing escapes the wrapper: every BaseException is an outcome
@@ -200,4 +202,4 @@ contract("usim._primitives.task.Task.__init__.payload_wrapper",
                                     "forall(Interrupt, lambda i: implies(i.sub is not None, i._revoked == at_loop_entry(i._revoked)))",
                                     "forall(Interrupt, lambda i: implies(at_loop_entry(i._revoked), i._revoked))",
                                     "self._result is not None and self.reported and self.__runner__.state == 1"]},
-         props=["C03", "C04", "C05", "C06"])
+         props=["C03", "C04", "C05", "C06", "C01"])
